@@ -67,7 +67,7 @@ class C15(Engine):
             "hash; non-trivial = the case executed (return value 0) in at least two variants with equal starting snapshots.")
     assumptions = ["register state is observed through dump_registers() and a hash of the Memory pages (plus a second step so that hidden state surfaces); internal fields are never poked",
                    "the opcode x state space is sampled (stratified over the first opcode unit), not enumerated",
-                   "PC-versus-disassembler length agreement is not checked by this engine"]
+                   "PC-versus-disassembler length agreement is checked for the three simulators that take the length from the disassembler (6502, 65816, Z80)"]
     real_components = Engine.real_components + ["all 15 Simulate* classes through cpu_list[].simulate_init, called in-process by sim/engine_c15.cpp"]
 
     CASES = 16
